@@ -129,6 +129,15 @@ var c10Scripts = []c10Script{
 		func(x *c10Ctx) { time.Sleep(2 * time.Millisecond) },
 		func(x *c10Ctx) { x.out = x.w.WaitOut(1, time.Second); x.open(x.out) },
 	}},
+	{name: "refuse-at-retry", setup: func(x *c10Ctx) {
+		// every dial fails at the very instant the connect-retry timer fires
+		x.ps.ConnectRetry = time.Second
+		x.w.DialPolicy = func(hz.DialReq) (hz.DialAction, time.Duration) { return hz.DialRefuse, time.Second }
+	}, steps: []func(*c10Ctx){
+		func(x *c10Ctx) { time.Sleep(999 * time.Millisecond) },
+		func(x *c10Ctx) { time.Sleep(2 * time.Millisecond) },
+		func(x *c10Ctx) { time.Sleep(time.Second) },
+	}},
 	{name: "damped", setup: func(x *c10Ctx) {}, steps: []func(*c10Ctx){
 		func(x *c10Ctx) { x.in = x.w.Connect(x.ps.Addr) },
 		func(x *c10Ctx) { x.in.SendNotification(2, 2, nil) },
